@@ -1290,7 +1290,7 @@ pub fn run(o: &Opts) -> Report {
 {CPU write cycle via 0x4000, via 0xC000 with bank 5/7 paged, real LD (HL),A, tape fast-load, SCR, SNA, SZX} on both \
 machines, into the displayed and the hidden 128K screen, followed by single-byte perturbation frames (16 bytes per \
 frame, alternating CPU/Z80 paths) that together cover every one of the 6912 offsets of every screen bank; \
-(2) 48-frame runs without memory change for the flash phase (both machines, both 128K screens); (2b) a program run by emulate_frames with 2-3 frames per call, stopped by a breakpoint inside the first frame at various beam positions and resumed with one frame per call; (3) beam-relative \
+(2) runs of 50-1100 frames without memory change for the flash phase (more than 512 frames on the 48K) (both machines, both 128K screens); (2b) a program run by emulate_frames with 2-3 frames per call, stopped by a breakpoint inside the first frame at various beam positions and resumed with one frame per call; (3) beam-relative \
 probes: one byte written at frame clock fetch(line,col)+d, d in -40..40, pixels read from the frame in progress and \
 the next one; (4) paging-latch histories switching the displayed 128K screen, including the lock bit; (5) pokes \
 (execute_poke) into screen memory; (6) matrix: every writer {CPU write cycle, real LD (HL),A, execute_poke, tape fast-load, \
@@ -1447,7 +1447,8 @@ phases by frame number mod 32, beam (writer, byte kind, before/after/margin, dt/
             ops.push(Op::Wait(clocks_frame(m128)));
         }
         ops.push(Op::WBlk(if bank == 7 { 0xC000 } else { 0x4000 }, 0, scr));
-        for _ in 0..o.n(50, 200) {
+        // the 48K run is long enough for an eight-bit frame counter to wrap twice
+        for _ in 0..(if !m128 { o.n(530, 1100) } else { o.n(50, 600) }) {
             ops.push(Op::Frame);
         }
         cases.push((format!("flash m128={} bank={}", m128, bank), Case { m128, ops }, 1));
